@@ -13,7 +13,8 @@ BEH = os.path.join(vlib.WORK, "beh")
 AS_LIMIT = 4 << 30            # address space of the recorder (bytes)
 CPU_HANG_S = 5.0              # a call that burns this much CPU without returning hangs
 WALL_HANG_S = 120.0           # ... or that long without using any CPU (blocked)
-SEG_EVENTS = 60000            # reset (fresh contexts) about every so many events
+SEG_EVENTS = 4000             # the recorder emits a reset (fresh contexts, no live handles) about every so many events
+FILE_EVENTS = 400000          # at most so many events per TLC run (cut at reset events)
 TLC_PARALLEL = 4              # trace segments validated at the same time, one TLC worker each
 
 
@@ -221,12 +222,15 @@ def replay_call(call, job, sets):
 
 
 def split_segments(trace, seg_dir):
-    """One file per segment (cut at reset events)."""
+    """The trace in pieces for TLC, cut at reset events: about as many pieces as TLC runs in parallel,
+    but at most FILE_EVENTS events each."""
     shutil.rmtree(seg_dir, ignore_errors=True)
     os.makedirs(seg_dir)
+    events = vlib.read_ndjson(trace)
+    size = min(FILE_EVENTS, max(20000, len(events) // TLC_PARALLEL + 1))
     segs, cur = [], []
-    for e in vlib.read_ndjson(trace):
-        if e["ev"] == "reset" and len(cur) >= SEG_EVENTS // 2:
+    for e in events:
+        if e["ev"] == "reset" and len(cur) >= size:
             segs.append(cur)
             cur = []
         cur.append(e)
